@@ -23,7 +23,7 @@ ASSUMPTIONS = ["value agreement 1e-9 relative (float64); gradient agreement 1e-7
 
 
 def bounds(tier):
-    return {"batch_sizes": "2..7", "n_contrastive": "1..batch-1 (all)", "keys": 3, "num_samples": [1, 3, 16],
+    return {"batch_sizes": "2..7; likelihood loss also 255,256,257,1023,1024,1025,2500,4097", "n_contrastive": "1..batch-1 (all)", "keys": 3, "num_samples": [1, 3, 16],
             "distributions": ["Normal", "coupling flow", "conditional coupling flow", "model with NonTrainable + reparam wrappers"],
             "exhaustive_within_bounds": True}
 
@@ -122,11 +122,16 @@ def run_case(case):
         # other valid batch layouts: two leading batch axes, and a condition batch broadcasting against a single x
         key = keys[0]
         layouts = [((4, 3, 2), (4, 3, 2) if cond else None)] + ([((2,), (5, 2)), ((6, 2), (3, 1, 2))] if cond else [])
+        # large batches around powers of two (an implementation that evaluates in chunks must not drop or repeat rows): the last
+        # row is far from the rest, so leaving it out (or counting it twice) moves the mean visibly
+        layouts += [((n_, 2), (n_, 2) if cond else None) for n_ in (255, 256, 257, 1023, 1024, 1025, 2500, 4097)]
         for xs_, cs_ in layouts:
             x = jr.normal(key, xs_) * (0.5 if case["model"] == "wrapped" else 1.0)
             if case["model"] == "wrapped":
                 x = jnp.tanh(x)
             c = jr.normal(jr.fold_in(key, 9), cs_) if cs_ is not None else None
+            if len(xs_) == 2 and xs_[0] > 100 and case["model"] != "wrapped":
+                x = x.at[-1].set(3.5)
             p, s = part(d)
             got = MaximumLikelihoodLoss()(p, s, x, c) if cond else MaximumLikelihoodLoss()(p, s, x)
             lp = unwrap(d).log_prob(x, c)
